@@ -102,8 +102,9 @@ type txSession struct {
 	drift  bool
 	// pool: when set, every callback also reads the pool through its public API (a session is free to do so while a
 	// selection is running: what the selection has snapshotted must not be disturbed by it)
-	pool   *txcache.TxCache
-	mu     sync.Mutex
+	pool    *txcache.TxCache
+	scratch *types.AccountState
+	mu      sync.Mutex
 	asked  map[string]int
 	gasked map[string]int
 }
@@ -136,7 +137,16 @@ func (s *txSession) GetAccountState(a []byte) (*types.AccountState, error) {
 	if !ok {
 		return nil, fmt.Errorf("account not found")
 	}
-	return &types.AccountState{Nonce: ac.nonce, Balance: new(big.Int).Set(ac.balance)}, nil
+	// the session owns what it hands out and reuses it: ONE AccountState object serves every answer of a selection (with a
+	// fresh balance each time). Whoever needs the nonce later has to have copied it.
+	s.mu.Lock()
+	if s.scratch == nil {
+		s.scratch = &types.AccountState{}
+	}
+	st := s.scratch
+	st.Nonce, st.Balance = ac.nonce, new(big.Int).Set(ac.balance)
+	s.mu.Unlock()
+	return st, nil
 }
 func (s *txSession) IsIncorrectlyGuarded(tx data.TransactionHandler) bool {
 	d := s.host.byPtr[tx.(data.TransactionWithFeeHandler)]
